@@ -116,13 +116,16 @@ func DigestPowershell(r io.Reader, style PsSigStyle, hash crypto.Hash) (*PsDiges
 		}
 		if line == first {
 			// remove EOL from previous line
+			eol := 2
 			if isUtf16 {
-				saved = saved[:len(saved)-4]
-				sigSize = 4
-			} else {
-				saved = saved[:len(saved)-2]
-				sigSize = 2
+				eol = 4
 			}
+			if len(saved) < eol {
+				// signature block at the very start, or not preceded by a line break
+				return nil, errors.New("malformed powershell signature")
+			}
+			saved = saved[:len(saved)-eol]
+			sigSize = int64(eol)
 			// count the size of the signature
 			sigSize += int64(len(line))
 			n, err := io.Copy(io.Discard, br)
@@ -192,6 +195,10 @@ func VerifyPowershell(r io.ReadSeeker, style PsSigStyle, skipDigests bool) (*Pow
 			}
 			i := len(si.start)
 			j := len(lstr) - len(si.end) - 2
+			if j < i {
+				// start and end delimiters overlap, e.g. "<!-- -->"
+				return nil, errors.New("malformed powershell signature")
+			}
 			lder, err := base64.StdEncoding.DecodeString(lstr[i:j])
 			if err != nil {
 				return nil, err
@@ -298,17 +305,27 @@ func (pd *PsDigest) MakePatch(sig []byte) (*binpatch.PatchSet, error) {
 }
 
 func readLine(br *bufio.Reader, isUtf16 bool) (string, error) {
-	line, err := br.ReadString('\n')
-	if isUtf16 && err == nil {
-		// \n\0
-		var zero byte
-		zero, err = br.ReadByte()
-		if zero != 0 {
-			return "", errors.New("malformed utf16")
-		}
-		line += "\x00"
+	if !isUtf16 {
+		return br.ReadString('\n')
 	}
-	return line, err
+	// UTF-16-LE: read whole code units so that only U+000A ends a line, not
+	// any code unit that happens to contain a 0x0A byte (U+4E0A, U+010A, ...)
+	var line []byte
+	for {
+		lo, err := br.ReadByte()
+		if err != nil {
+			return string(line), err
+		}
+		line = append(line, lo)
+		hi, err := br.ReadByte()
+		if err != nil {
+			return string(line), err
+		}
+		line = append(line, hi)
+		if lo == '\n' && hi == 0 {
+			return string(line), nil
+		}
+	}
 }
 
 // Convert UTF8 to UTF-16-LE
